@@ -13,15 +13,20 @@ type BitsCase struct {
 	Modes  []int     `json:"modes"`  // mode of each segment; Modes[0] == 0 means "no directive" (16-bit default)
 	Noise  []string  `json:"noise"`  // lines placed between the directive and the segment's first statement (emit nothing)
 	Before []string  `json:"before"` // lines before the first directive (emit nothing)
+	Spell  []string  `json:"spell,omitempty"` // how the whole program writes the operand of each directive ("" = decimal): 0x20, 0X10, an EQU name; the parts always write it in decimal
 	Cell_  string    `json:"cell"`
 }
 
 func (c *BitsCase) Kind() string { return "bits" }
 func (c *BitsCase) Spread() bool { return true }
 
-func segSrc(mode int, noise []string, seg []PStmt) string {
+func segSrc(mode int, noise []string, seg []PStmt) string { return segSrcSpelt(mode, "", noise, seg) }
+
+func segSrcSpelt(mode int, spell string, noise []string, seg []PStmt) string {
 	var b strings.Builder
-	if mode != 0 {
+	if mode != 0 && spell != "" {
+		fmt.Fprintf(&b, "[BITS %s]\n", spell)
+	} else if mode != 0 {
 		fmt.Fprintf(&b, "[BITS %d]\n", mode)
 	}
 	for _, n := range noise {
@@ -43,7 +48,11 @@ func (c *BitsCase) whole() string {
 		if i == 0 {
 			noise = c.Noise
 		}
-		b.WriteString(segSrc(c.Modes[i], noise, c.Segs[i]))
+		sp := ""
+		if i < len(c.Spell) {
+			sp = c.Spell[i]
+		}
+		b.WriteString(segSrcSpelt(c.Modes[i], sp, noise, c.Segs[i]))
 	}
 	return b.String()
 }
@@ -185,6 +194,21 @@ func genC17(r *Rand) *BitsCase {
 	}
 	add(&c.Before, r.Intn(4))
 	add(&c.Noise, r.Intn(5))
+	// the operand of the directive in another spelling of the same number: hexadecimal, or an EQU name defined up front
+	if r.Chance(1, 3) {
+		c.Spell = make([]string, len(c.Modes))
+		named := false
+		for i, m := range c.Modes {
+			if m == 0 || r.Chance(1, 3) {
+				continue
+			}
+			c.Spell[i] = Pick(r, map[int][]string{16: {"0x10", "0X10", "MODE16", "0x010"}, 32: {"0x20", "0X20", "MODE32", "0x020"}}[m])
+			named = named || strings.HasPrefix(c.Spell[i], "MODE")
+		}
+		if named {
+			c.Before = append([]string{"MODE16\tEQU\t16", "MODE32\tEQU\t32"}, c.Before...)
+		}
+	}
 	// a leading blank or comment line is fine now that labels may follow them; statements only here
 	c.Cell_ = fmt.Sprintf("segs=%d first=%d noise=%d before=%d", n, c.Modes[0], len(c.Noise), len(c.Before))
 	return c
@@ -226,7 +250,11 @@ func genC17Walk(r *Rand) *ProgCase {
 		if i > 0 {
 			mode = 48 - mode
 			superseded(mode)
-			p.Stmts = append(p.Stmts, PStmt{K: "bits", N: int64(mode)})
+			bs := PStmt{K: "bits", N: int64(mode)}
+			if r.Chance(1, 4) {
+				bs.Text = Pick(r, map[int][]string{16: {"0x10", "0X10", "0x0010"}, 32: {"0x20", "0X20", "0x0020"}}[mode])
+			}
+			p.Stmts = append(p.Stmts, bs)
 		}
 		// other directives between the [BITS] line and the code it governs must not disturb the mode in force
 		if i > 0 && r.Chance(1, 3) {
@@ -310,7 +338,7 @@ func init() {
 				cases = append(cases, genC17(r))
 			}
 		}
-		rep.Rule = "seeded programs of 1-5 segments, each a label-free sequence from the clean pool introduced by [BITS 16|32] (the first optionally by nothing), with the first directive placed among comments, EQUs, GLOBAL/EXTERN, other [..] directives; " +
+		rep.Rule = "seeded programs of 1-5 segments, each a label-free sequence from the clean pool introduced by [BITS 16|32] (the first optionally by nothing), with the first directive placed among comments, EQUs, GLOBAL/EXTERN, other [..] directives; in a third of the programs the directives write their operand as 0x10/0x20/0X20 or as an EQU name while the separately assembled parts write it in decimal; " +
 			"oracle (a): out(P) must equal the concatenation of out([BITS m_i]; segment_i) assembled separately; (b) programs that switch mode 1-4 times with labels: the walker decodes every segment under its own mode and all embedded label values, including a label after the last statement, must be true offsets (sizes follow the mode too); a third of the switches are followed by another directive ([INSTRSET]/[OPTIMIZE]/[FILE]/[SECTION], ALIGNB, an EQU, GLOBAL, DB) before the code, and a third of the segments hold LGDT [label] or MOV reg,[label] with the label ahead or behind; distinct = (segments, first directive, noise, position) cells"
 		outs := RunCases(env, cases)
 		xcheckProg(env, rep, outs)
